@@ -593,6 +593,13 @@ func (r *ChunkReader) NextChunk() (Chunk, error) {
 			}
 		}
 		for n := int32(r.currNode.arity()); r.nextChunk < n; {
+			// A node's elements can be a mix of leaf and branch children. A
+			// branch child (after a leaf child) is not a chunk. Instead,
+			// re-resolve r.seekPosition, which is that branch child's
+			// DRange[0], to descend into it (or to skip it, if it is empty).
+			if !r.currNode.isLeaf(int(r.nextChunk)) {
+				break
+			}
 			c := r.currNode.chunk(int(r.nextChunk), r.currNodeCBias, r.currNodeDBias)
 			r.nextChunk++
 			r.seekPosition = c.DRange[1]
